@@ -70,6 +70,23 @@ theorem kfExt_items (c : Ctx) (fuel : Nat) dfr item rt fname nodes p xs i acc st
 
 theorem kfExt_addErr (st : St) (p : Path) (d : Bool) : KfExt st (addErr st p d) := ⟨[], rfl⟩
 
+/-- the definition `getFieldDef` finds carries the name that was looked up -/
+theorem fieldDef?_name {s : Schema} {rt n : String} {fd : FieldDefS} (h : fieldDef? s rt n = some fd) : fd.name = n := by
+  unfold fieldDef? at h
+  by_cases hn : (n == "__typename") = true
+  · simp only [hn, if_true, Option.some.injEq] at h
+    subst h
+    exact (beq_iff_eq.1 hn).symm
+  · simp only [hn, Bool.false_eq_true, if_false] at h
+    have := List.find?_some h
+    exact beq_iff_eq.1 this
+
+theorem fpOK_fieldName {s : Schema} {rt : String} {P : FieldNode → Chain → Prop} {fp : FieldPlan} {fd : FieldDefS}
+    (hfp : FpOK s rt P fp) (hfd : fp.fieldDef = some fd) : fd.name = fp.fieldName := by
+  obtain ⟨n0, ch0, tl, _, hname, hdef, _⟩ := hfp.head
+  rw [hname]
+  exact fieldDef?_name (by rw [← hdef]; exact hfd)
+
 /-! ## the relation -/
 
 section sv
@@ -80,7 +97,7 @@ def Wit (cl : Closure) (j : JVal) : Prop :=
   (∀ x ∈ cl.fp.nodes, NodeOK c pv rank x.1 x.2) ∧
   match cl.r with
   | some (.ok v) =>
-    ∃ fname st rS stS, complete c F true cl.t cl.rt fname cl.fp.fieldNodes cl.path v st = (rS, stS) ∧
+    ∃ st rS stS, complete c F true cl.t cl.rt cl.fp.fieldName cl.fp.fieldNodes cl.path v st = (rS, stS) ∧
       stS.kfThunk = st.kfThunk ∧ (rS = .ok j ∨ (rS = .fail ∧ cl.t.isNonNull = false ∧ j = .null))
   | _ => cl.t.isNonNull = false ∧ j = .null
 
@@ -155,12 +172,12 @@ structure GenP (fuel : Nat) : Prop where
     | .ok j => ∃ x, (mField c alt0 fuel dfr rt src p fid fp fd mst).1 = .ok x ∧ SV c pv rank F x j
     | .fail => (mField c alt0 fuel dfr rt src p fid fp fd mst).1 = .fail
     | .fuelOut => False
-  complete : ∀ dfr t rt fname fid fp p v st mst rS stS, (∀ x ∈ fp.nodes, NodeOK c pv rank x.1 x.2) →
-    complete c fuel dfr t rt fname fp.fieldNodes p v st = (rS, stS) → rS ≠ .fuelOut → stS.kfThunk = st.kfThunk →
+  complete : ∀ dfr t rt fid fp p v st mst rS stS, (∀ x ∈ fp.nodes, NodeOK c pv rank x.1 x.2) →
+    complete c fuel dfr t rt fp.fieldName fp.fieldNodes p v st = (rS, stS) → rS ≠ .fuelOut → stS.kfThunk = st.kfThunk →
     CompleteRel c pv rank F t v rS (mComplete c alt0 fuel dfr t rt fid fp p v mst).1
-  items : ∀ dfr item rt fname fid fp p xs i accS acc st mst rS stS, (∀ x ∈ fp.nodes, NodeOK c pv rank x.1 x.2) →
+  items : ∀ dfr item rt fid fp p xs i accS acc st mst rS stS, (∀ x ∈ fp.nodes, NodeOK c pv rank x.1 x.2) →
     SVl c pv rank F acc accS →
-    completeItems c fuel dfr item rt fname fp.fieldNodes p xs i accS st = (rS, stS) → rS ≠ .fuelOut → stS.kfThunk = st.kfThunk →
+    completeItems c fuel dfr item rt fp.fieldName fp.fieldNodes p xs i accS st = (rS, stS) → rS ≠ .fuelOut → stS.kfThunk = st.kfThunk →
     match rS with
     | .ok js => ∃ ys, (mItems c alt0 fuel dfr item rt fid fp p xs i acc mst).1 = .ok ys ∧ SVl c pv rank F ys js
     | .fail => (mItems c alt0 fuel dfr item rt fid fp p xs i acc mst).1 = .fail
@@ -174,9 +191,9 @@ theorem genP_zero : GenP c pv rank F 0 := by
     simp only [execGroups, Prod.mk.injEq] at h; exact absurd h.1.symm hr
   · intro dfr rt src p fid fp fd st mst rS stS _ _ h hr _
     simp only [execField, Prod.mk.injEq] at h; exact absurd h.1.symm hr
-  · intro dfr t rt fname fid fp p v st mst rS stS _ h hr _
+  · intro dfr t rt fid fp p v st mst rS stS _ h hr _
     simp only [complete, Prod.mk.injEq] at h; exact absurd h.1.symm hr
-  · intro dfr item rt fname fid fp p xs i accS acc st mst rS stS _ _ h hr _
+  · intro dfr item rt fid fp p xs i accS acc st mst rS stS _ _ h hr _
     simp only [completeItems, Prod.mk.injEq] at h; exact absurd h.1.symm hr
 
 end gen
